@@ -1,6 +1,9 @@
 #!/bin/sh
-# usage: coqdbg.sh File.v LINE  -- shows the goal at LINE (replaces the line by Show. and aborts)
-f=$1; n=$2
-head -n $((n-1)) "$f" > /tmp/Dbg.v
-echo "Show. " >> /tmp/Dbg.v
-cd /verif/coq && coqc -Q . Qv /tmp/Dbg.v 2>&1 | head -${3:-60}
+# usage: coqdbg.sh <path/to/File.v> LINE [maxlines] -- prints the proof state just before LINE
+here=$(cd "$(dirname "$0")/.." && pwd)
+f=$(realpath "$1"); n=$2
+tmp=$(mktemp -d /tmp/coqdbg.XXXXXX)
+head -n $((n-1)) "$f" > $tmp/Dbg.v
+echo "Show. " >> $tmp/Dbg.v
+cd "$here/coq" && timeout 300 coqc -Q . Qv $tmp/Dbg.v 2>&1 | head -${3:-80}
+rm -rf $tmp
